@@ -19,6 +19,10 @@ func init() {
 		Rule: rule + "Distinct = ⟨invariant family, pool-state class (1:1 / skewed buckets / empty), #holders bucket, association⟩, bystander-fairness cases by ⟨op, pool class⟩, observed round trips by pool class, and pure-function triples by pool class (20 000 per run)."})
 	RegisterPlan(Plan{Prop: "C03", Engine: "ledger", Variant: "exit", Quick: 48, Thorough: 1600, Level: "exploration", MinCases: 10,
 		Rule: rule + "Distinct = ⟨operator lifecycle state at undelegation, hold pattern, asset kind, record origin⟩ for which a release was observed, accepted-undelegation classes by operator state, same-block release multiplicities, numbers of concurrent records."})
+	RegisterPlan(Plan{Prop: "C04", Engine: "ledger", Variant: "slash", Quick: 48, Thorough: 1600, Level: "exploration", MinCases: 8,
+		Rule: rule + "Slash drivers: keeper-step OperatorKeeper.Slash with generated power/proportion/infraction height/slash id (fresh, replayed, invalid), and the real BeginBlock path (double-sign evidence, downtime). Distinct = ⟨driver, p class (0,(0,1),1), #pools, #at-risk records, #not-at-risk records, pool slashed to zero⟩ for executed slashes, plus rejected-input and replay classes."})
+	RegisterPlan(Plan{Prop: "C07", Engine: "ledger", Variant: "keys", Quick: 48, Thorough: 1600, Level: "exploration", MinCases: 8,
+		Rule: rule + "Profile `keys` weights opt-in with key, key replacement (fresh key, own earlier key, another operator's key), opt-out and evidence higher. Distinct = ⟨op kind, key status (fresh / own-current / own-previous / others), removing?, ack⟩, registry shapes ⟨#operators with keys, previous keys present, removals present⟩, and observed prunings by cause (replaced / removal)."})
 }
 
 func runLedger(j Job) *Result {
@@ -26,6 +30,8 @@ func runLedger(j Job) *Result {
 	c01 := mon.NewStats("C01")
 	c02 := mon.NewStats("C02")
 	c03 := mon.NewStats("C03")
+	c04 := mon.NewStats("C04")
+	c07 := mon.NewStats("C07")
 	for i := j.From; i < j.To; i++ {
 		hist := fmt.Sprintf("ledger:%s:%d:%d", j.Variant, j.Seed, i)
 		o := ops.DefaultLedgerOpts()
@@ -45,9 +51,10 @@ func runLedger(j Job) *Result {
 			res.Inconclusive = "world construction failed: " + err.Error()
 			continue
 		}
-		m1, m2, m3 := mon.NewC01(hist), mon.NewC02(hist), mon.NewC03(hist)
+		m1, m2, m3, m4 := mon.NewC01(hist), mon.NewC02(hist), mon.NewC03(hist), mon.NewC04(hist)
+		m7 := mon.NewC07(hist)
 		m3.OperState = ops.OperState
-		w.Monitors = []ops.Monitor{m1, m2, m3}
+		w.Monitors = []ops.Monitor{m1, m2, m3, m4, m7}
 		w.RunLedger(o)
 		res.Histories++
 		res.Steps += int64(len(w.Steps))
@@ -68,6 +75,10 @@ func runLedger(j Job) *Result {
 				res.Notes = append(res.Notes, fmt.Sprintf("%s halted in %s: %s", hist, p.Phase, p.Value))
 			}
 		}
+		for _, mp := range w.MonitorPanics {
+			res.Notes = append(res.Notes, hist+" monitor panic: "+mp)
+			res.Inconclusive = "a monitor panicked: " + mp
+		}
 		if w.C.ValSetErr != nil {
 			res.Notes = append(res.Notes, fmt.Sprintf("%s valset: %v", hist, w.C.ValSetErr))
 		}
@@ -80,10 +91,22 @@ func runLedger(j Job) *Result {
 			c01.Sample(map[string]interface{}{"history": hist, "first_steps": w.Steps[:12]})
 			c02.Sample(map[string]interface{}{"history": hist, "first_steps": w.Steps[4:14]})
 			c03.Sample(map[string]interface{}{"history": hist, "first_steps": w.Steps[:12]})
+			for _, st := range w.Steps {
+				if (st.Kind == "setkey" || st.Kind == "optout" || st.Kind == "optin") && len(c07.Samples) < 5 {
+					c07.Sample(map[string]interface{}{"history": hist, "step": st})
+				}
+			}
+			for _, st := range w.Steps {
+				if st.Kind == "slash" && len(c04.Samples) < 4 {
+					c04.Sample(map[string]interface{}{"history": hist, "step": st})
+				}
+			}
 		}
 		c01.Merge(m1.S)
 		c02.Merge(m2.S)
 		c03.Merge(m3.S)
+		c04.Merge(m4.S)
+		c07.Merge(m7.S)
 	}
 	if j.From == 0 {
 		mon.PureShareFunctions(c02, rand.New(rand.NewSource(j.Seed)), 20000)
@@ -91,5 +114,7 @@ func runLedger(j Job) *Result {
 	res.AddStats(c01)
 	res.AddStats(c02)
 	res.AddStats(c03)
+	res.AddStats(c04)
+	res.AddStats(c07)
 	return res
 }
